@@ -120,6 +120,7 @@ PROPS['C09']={
  'obligations':[{'name':'link','module':'harness.signed','cls':'SignedBytes','quick':{'what':'link','prop':'C09','nbytes':2},'thorough':{'what':'link','prop':'C09','nbytes':3}},
                 {'name':'layout','module':'harness.signed','cls':'SignedBytes','quick':{'what':'layout','prop':'C09','nbytes':1},'thorough':{'what':'layout','prop':'C09','nbytes':2}}]}
 
+ADV_TYPES=['rule','rule_short','step','inspection','pubkey','signature','byproducts','link','layout','metablock_link','metablock_layout','predicate_slsa1','predicate_slsa2','predicate_link','statement_link','statement_slsa1','statement_naive']
 PROPS['C14']={
  'bounds_statement':'panic-freedom obligations, each on the real MIR: link files with arbitrary 64-byte UTF-8 signature key ids through the directory scan (match_signatures / KeyId::prefix); the rule engine on non-normalised paths; PAE decoding of arbitrary short inputs and of inputs whose length field is usize::MAX; key importers on non-keys with pem / ring constructors stubbed as "may fail"; the whole verification pipeline on adversarial but well-typed metadata is covered by the panic checks inside C01/C02/C07/C08/C13/C15 (every panic path there is reported as a violation).',
  'assumptions':PIPE_ASSUME+UNIT_ASSUME+['out of reach: the JSON text parsers (serde_json) on arbitrary bytes, derive-generated visitors, stack exhaustion, allocation failure; non-termination is excluded structurally (all loops run over finite collections), not solved'],
@@ -131,7 +132,7 @@ PROPS['C14']={
   {'name':'pae_free','module':'harness.C20','cls':'UnpackTotal','quick':{'n':7,'shape':'free'},'thorough':{'n':8,'shape':'free'}},
   {'name':'pae_maxlen','module':'harness.C20','cls':'UnpackTotal','quick':{'n':2,'shape':'maxlen'},'thorough':{'n':3,'shape':'maxlen'}},
   {'name':'pae_maxlen2','module':'harness.C20','cls':'UnpackTotal','quick':{'n':2,'shape':'maxlen2'},'thorough':{'n':3,'shape':'maxlen2'}},
- ]}
+ ]+[{'name':'decode_'+w,'module':'harness.C14','cls':'DecodeAdversarial','quick':{'what':w,'nbytes':1},'thorough':{'what':w,'nbytes':2},'validate':{'quick':8,'thorough':40},**({'tier_only':'thorough'} if w in ('layout','statement_naive') else {})} for w in ADV_TYPES]}
 
 WIRE_ASSUME=UNIT_ASSUME+['serde data models: Serializer (Python model of serde_json::value::Serializer) and Deserializer (one model of serde_json\'s from_str/from_slice/from_reader/from_value over a Value tree plus a channel tag; a borrowed &str request succeeds only for an unescaped string of from_str/from_slice; owned String requests always succeed); the crate\'s Serialize/Deserialize impls and derive-generated visitors (incl. flatten, untagged, deserialize_with) run from MIR against them',
   'the JSON text layer itself (tokenizer, whitespace, number syntax, recursion limit) is serde_json\'s and outside the claim; native replay runs every sample through the real from_str / escaped text / from_reader / from_value / from_slice / pretty text']
